@@ -581,6 +581,11 @@ func (u *Unit) loopWrites(fr *Frame, li *loopInfo) (cells []*Cell, heaps []strin
 					all = true
 				}
 			case *ssa.Next:
+				if r, ok := i.Iter.(*ssa.Range); ok && !i.IsString {
+					if _, isMap := r.X.Type().Underlying().(*types.Map); isMap {
+						hset[rangeHeapName(r)] = true
+					}
+				}
 			}
 		}
 	}
